@@ -414,6 +414,10 @@ def run_obj(case: dict) -> Tuple[List[str], List[str]]:
         if k in ("add", "remove"):
             lines.append(edit_line(op))
             out.append(apply_edit(acl, op, lst, net))
+            if len(lists) > 1:  # on a device: the addressed list and its neighbour, right away (a rule landing in another list)
+                other = LISTS[(LISTS.index(lst) + 1) % len(LISTS)]
+                lines += ["dump", f"sel {other}", "dump"]
+                out += [base.dump_impl(acl), "ok", base.dump_impl(lists[other])]
         elif k == "check":
             p = op["pkt"]
             lines.append(f"check {p['proto']} {p['src']} {p['dst']} {o(p['sport'])} {o(p['dport'])}")
